@@ -15,7 +15,8 @@
 //!   begin p= / commit p=                      the writes of p in between are ONE writer batch
 //!   compute p=                                request the daily-log recomputation and wait for it
 //!   pull dst= src= room=                      one directed synchronisation of one room
-//!   settle room= max=                         full rounds of all ordered pairs until a round changes nothing
+//!   settle room= max=                         every peer recomputes, then full rounds of all ordered pairs (room 0:
+//!                                             of both rooms) until a round changes nothing
 //! The `sig` numbers are symbolic signatures chosen by the generator (unique in a case); the harness
 //! maps the real signature bytes to them, and makes the byte order of the signatures of two versions of
 //! the same row with the same date agree with the numeric order (by re-signing with another salt).
@@ -846,24 +847,31 @@ impl World {
                 let c = self.case.as_ref().ok_or("bad-op")?;
                 let room = getn(kv, "room").ok_or("bad-op")? as usize;
                 let max = getn(kv, "max").ok_or("bad-op")?;
-                if !(1..=2).contains(&room) {
+                if room > 2 {
                     return Err("bad-op".into());
                 }
-                let room_id = c.rooms[room - 1];
+                // room=0: both rooms
+                let room_ids: Vec<Uid> = if room == 0 { c.rooms.clone() } else { vec![c.rooms[room - 1]] };
                 let n = c.npeers;
                 self.auto_commit().await;
                 self.stats.inc("op.settle");
+                // every peer recomputes its log first, as the API does after every acknowledged write
+                for p in 0..n {
+                    compute(&self.peers[p]).await;
+                }
                 let mut rounds = 0;
                 let mut last_f = 0;
                 let mut quiet = false;
                 while rounds < max {
                     let before = self.fingerprint().await;
                     let mut f = 0;
-                    for dst in 0..n {
-                        for src in 0..n {
-                            if dst != src {
-                                let r = pull(&self.peers[dst], &self.peers[src], room_id, None).await;
-                                f += r.requested;
+                    for room_id in &room_ids {
+                        for dst in 0..n {
+                            for src in 0..n {
+                                if dst != src {
+                                    let r = pull(&self.peers[dst], &self.peers[src], *room_id, None).await;
+                                    f += r.requested;
+                                }
                             }
                         }
                     }
